@@ -16,7 +16,7 @@ import copy
 import logging
 import math
 
-from .. import core, sessions, simpool
+from .. import core, sessions, layouts, simpool
 from ..models import dtw_ref
 
 PROP = "C16"
@@ -35,7 +35,8 @@ COMPONENTS = {"real": ["clustering/kmeans.py (KMeans.fit, kmeansplusplus_centers
               "stub": ["multiprocessing.Pool -> sim/simpool.py (seeded pool size, chunking, completion order; pickling isolation)",
                        "np.random / random seeds (owned by the simulator)", "monitor_distances callback (environment: cancels at a seeded iteration)",
                        "reference DTW for the nearest-mean oracle: sim/models/dtw_ref.py"]}
-ASSUMPTIONS = ["one history in three: the caller keeps one collection object for all fits and refills it in place between them",
+ASSUMPTIONS = ["every series is handed over as a contiguous array or (three times in seven) as a strided / reversed / Fortran-ordered view of the same numbers",
+               "one history in three: the caller keeps one collection object for all fits and refills it in place between them",
                "bounds: mostly k 1..5, n = k+1..12 series of length 2..8 (one history in 10: k 4..8, n up to 25, length <= 13, max_it <= 9; one in 8: k 6..9 over k+1..k+6 short series), ndim 1..2, max_it 0..5, max_dba_it 1..3, thr in {default, 1e-4, 0.05, 0.5, 2}, data amplitude in {1, 1e-3, 1e-4}",
                "empty clusters in the returned dict are allowed (with fewer distinct series than k they are unavoidable); keys must still be exactly 0..k-1",
                "nearest-mean comparison uses rel. tol 1e-9 on the reference distances; serial vs parallel comparison is exact (float bits)"]
@@ -94,6 +95,10 @@ def gen_history(st):
             programs[s].append({"op": "fit", "model": mi, "npseed": rng.below(2 ** 31), "pyseed": rng.below(2 ** 31),
                                 "stop_at": rng.choice([None, None, 1, 1, 2, 3]), "parallel": rng.below(2) == 0, "poolseed": rng.u64()})
     ops = sessions.interleave(st("sessions"), programs)
+    lrng = st("layout")       # a stream of its own: the layouts do not shift the rest of the workload
+    for d in data:
+        # every series as a contiguous array or (three times in seven) as a strided / reversed / Fortran-ordered view of the same numbers
+        d["layout"] = [lrng.choice(layouts.KINDS) for _ in d["series"]]
     # one history in three: the caller keeps ONE collection object for all fits and refills it in place
     return {"setup": {"data": data, "ndim": ndim, "inplace": rng.below(3) == 0}, "ops": ops}
 
@@ -118,7 +123,8 @@ _CALLER = {"buf": None}
 
 def _series(dat, ndim):
     import numpy as np
-    out = [np.array(s, dtype=np.double) for s in dat["series"]]
+    lay = dat.get("layout") or []
+    out = [layouts.view(np.array(s, dtype=np.double), lay[i] if i < len(lay) else "c") for i, s in enumerate(dat["series"])]
     if _CALLER["buf"] is not None:
         _CALLER["buf"][:] = out      # the caller's one collection object: same list, new content
         return _CALLER["buf"]
